@@ -689,17 +689,21 @@ def _merge_stats(a, b):
 
 
 def _explore_serial(harness, roots, deadline, max_paths, blockers, reset, stop_at_pending=None,
-                    max_cex=12, keep_samples=4):
+                    max_cex=12, keep_samples=4, job_seconds=None):
     st = _new_stats()
     work = list(roots)
+    t_job = time.time()
     while work:
+        if job_seconds is not None and st["paths"] > 0 and time.time() - t_job > job_seconds:
+            break
         if deadline is not None and time.time() > deadline:
             st["exhausted"] = False
             break
         if st["paths"] + st["infeasible"] >= max_paths:
             st["exhausted"] = False
             break
-        if stop_at_pending is not None and len(work) >= stop_at_pending:
+        if stop_at_pending is not None and (len(work) >= stop_at_pending or
+                                            (len(work) >= 2 and time.time() - t_job > 1.0)):
             break
         if sum(1 for c in st["cex"] if not c.get("listed")) >= max_cex or len(st["errors"]) >= 3:
             st["exhausted"] = False
@@ -719,7 +723,7 @@ _JOB_PATHS = 250          # a pool job gives back its unexplored prefixes after 
 def _pool_job(prefixes):
     a = _POOL_ARGS
     st, left = _explore_serial(a["harness"], list(prefixes), a["deadline"], _JOB_PATHS,
-                               a["blockers"], a["reset"], keep_samples=a["keep_samples"])
+                               a["blockers"], a["reset"], keep_samples=a["keep_samples"], job_seconds=1.5)
     if left:
         st["exhausted"] = True      # not a budget overrun: the parent reschedules what is left
     return st, left
